@@ -24,9 +24,11 @@ META = {
     "require": {"quick": ["kernel_calls", "wrapper_calls", "many_calls", "insitu_workloads", "many:chain",
                           "presentation:strided", "presentation:view_in_buffer", "class:lopsided", "class:lopsided>32768",
                           "class:views_of_one_buffer", "many:more_than_16_arrays",
+                          "threads:calls_overlapping_another_thread's_call",
                           "class:left_empty", "class:right_empty", "class:touching", "class:nested",
                           "class:interleaved", "class:identical"],
-                "thorough": ["kernel_calls", "wrapper_calls", "many_calls", "insitu_workloads", "long_pairs"]},
+                "thorough": ["kernel_calls", "wrapper_calls", "many_calls", "insitu_workloads", "long_pairs",
+                             "threads:calls_overlapping_another_thread's_call"]},
     "exhaustive": {"quick": "all 16384 ordered pairs of subsets of a 7-element universe x 4 embeddings x 6 entry points",
                    "thorough": "all 1048576 ordered pairs of subsets of a 10-element universe x 4 embeddings x 6 entry points"},
     "assumptions": ["inputs satisfy the kernels' precondition (strictly increasing uint32); in-situ calls whose "
@@ -43,6 +45,7 @@ def shards(tier):
         out += [{"label": "random", "kind": "random", "n": 3000, "maxlen": 300},
                 {"label": "many", "kind": "many", "n": 4000},
                 {"label": "insitu", "kind": "insitu", "n": 150},
+                {"label": "threads", "kind": "threads", "n": 3},
                 {"label": "repotests", "kind": "repotests"}]
     else:
         out = []
@@ -57,6 +60,7 @@ def shards(tier):
         out += [{"label": "long", "kind": "random", "n": 300, "maxlen": 100000, "long": True}]
         out += [{"label": "many%d" % i, "kind": "many", "n": 40000} for i in range(2)]
         out += [{"label": "insitu%d" % i, "kind": "insitu", "n": 1500} for i in range(2)]
+        out += [{"label": "threads", "kind": "threads", "n": 25}]
         out += [{"label": "repotests", "kind": "repotests", "timeout_s": 3600}]
     return out
 
@@ -185,6 +189,8 @@ def judge(ctx, case):
         run_many(ctx, so, [numpy.asarray(x, dtype=U32) for x in case["arrays"]])
     elif api == "insitu":
         insitu(ctx, 1, replay_case=case)
+    elif api == "threads":
+        threads_case(ctx, so, case)
     else:
         a = None if case.get("a") is None else numpy.asarray(case["a"], dtype=U32)
         b = None if case.get("b") is None else numpy.asarray(case["b"], dtype=U32)
@@ -192,6 +198,22 @@ def judge(ctx, case):
             wrapper_conventions(ctx, so, a if a is not None else K.arr([]), b if b is not None else K.arr([]))
         else:
             run_pair(ctx, so, a, b, "replay")
+
+
+def threads_case(ctx, so, case):
+    out = K.threaded_workload(so, numpy.random.default_rng(case["wseed"]), threads=case["threads"], rounds=20, big=case["big"])
+    ctx.count("threads:calls", out["calls"])
+    ctx.count("threads:calls_overlapping_another_thread's_call", out["overlapping"])
+    ctx.evaluation(("threads", case["wseed"], case["threads"], case["big"]), out["overlapping"] > 0, n=max(1, out["calls"]))
+    for t, name, e in out["errors"]:
+        ctx.violation("threads:%s:raised" % name, "kernel %s raised %r while other threads were inside the kernels "
+                      "(each thread has its own operands)" % (name, e), case)
+    for t, name, detail, operands in out["mismatches"]:
+        ctx.violation("threads:%s:wrong-result" % name,
+                      "kernel %s returned a wrong result (%s) while other threads were inside the kernels; each thread "
+                      "has its own operands" % (name, detail), case)
+    if out["stuck_threads"]:
+        ctx.inconclusive.append("threads workload: %d threads did not finish" % out["stuck_threads"])
 
 
 def run_shard(ctx):
@@ -313,6 +335,14 @@ def run_shard(ctx):
                 return
     elif kind == "insitu":
         insitu(ctx, s["n"])
+    elif kind == "threads":
+        # several threads inside the kernels at once, each on its own operands (as the cubes' pools do)
+        for n in range(s["n"]):
+            threads_case(ctx, so, {"api": "threads", "wseed": int(rng.integers(0, 2 ** 31)),
+                                   "threads": int(K.pickone(rng, [4, 8, 12])),
+                                   "big": int(K.pickone(rng, [40000, 150000, 300000]))})
+            if ctx.full():
+                return
     elif kind == "repotests":
         from .. import repotests
 
